@@ -1160,8 +1160,39 @@ def r17f(ctx):
     ctx.check(rule, fn, refused(outs), "negative exponent refused", f"a tensor with exponent -1 is contracted: {outs}", key="unoptimized division")
 
 
+def r17g(ctx):
+    """Emitted operand names keep tensor kinds apart: a Kronecker delta must not get the name of a configured tensor."""
+    rule = "R17g"
+    from . import c11
+    from ..symex import Obj as _Obj
+    fn = ctx.model.fn("expr_container:Obj.longname")
+    w = c11.TensorWorld(ctx.model)
+    fields = c11.class_attrs(ctx.model.cls("tensor_names:TensorNames"))
+    n = 0
+    for (p, q, sp) in (("i", "j", "oo"), ("a", "b", "vv"), ("i", "a", "ov")):
+        x, y = c11.tensor_index(p), c11.tensor_index(q)
+        d = _Obj("sympy_objects:KroneckerDelta", "<delta>")
+        d.attrs.update(args=(x, y), is_number=False)
+        dname = w.longname(d)
+        for field, tname in sorted(fields.items()):
+            if not isinstance(tname, str) or field in ("gs_amplitude", "gs_density", "left_adc_amplitude", "right_adc_amplitude"):
+                continue
+            for kind, groups in (("AntiSymmetricTensor", [(x,), (y,)]), ("NonSymmetricTensor", [(x, y)])):
+                try:
+                    t, _ = w.construct(kind, tname, groups, 0 if kind == "AntiSymmetricTensor" else None)
+                    tn = w.longname(t)
+                except AnalysisError:
+                    continue
+                n += 1
+                ctx.check(rule, fn, tn != dname, f"delta_{p}{q} ({dname}) and {field} tensor {tname}_{p}{q} ({tn}) have different emitted names",
+                          f"the Kronecker delta delta_{p}{q} and the configured {field} tensor `{tname}` on the same indices are both emitted "
+                          f"as `{dname}`: in the generated contraction code the delta and the tensor are the same operand",
+                          key=f"delta name collision {field} {sp} {kind}")
+    ctx.floor(rule, "delta/tensor name pairs", n, 10)
+
+
 def run(ctx):
-    for r, f in (("R17a", r17a), ("R17b", r17b), ("R17c", r17c), ("R17d", r17d), ("R17e", r17e), ("R17f", r17f)):
+    for r, f in (("R17a", r17a), ("R17b", r17b), ("R17c", r17c), ("R17d", r17d), ("R17e", r17e), ("R17f", r17f), ("R17g", r17g)):
         if ctx.want(r):
             f(ctx)
     if ctx.want("R16a"):
